@@ -5,6 +5,7 @@ import SdxProofs.SubsFrom
 import Props.C11
 import SdxProofs.CellOrigin
 import SdxModel.Sample
+import SdxModel.Convert
 set_option linter.unusedSectionVars false
 /-!
 # C01 — Suppression floor: nothing is released from fewer than `low_threshold` entities
@@ -520,5 +521,46 @@ theorem C01_table_strings (E : Env α) (inp : ForestIn α) (F : Forest α) (hini
     rw [← hcomb] at this
     exact this
   exact buildTable_cells E F convs isIntegral entropy threshRel cl streams s s' res _ hini hder hM h
+
+/-- **C01 for the strings of `Synthesizer(...).sample()` from the typed input table, any cluster plan.**  Convertors fitted on the typed
+columns, the table normalised, the forest built, every cluster of the plan materialised and stitched or patched on: every string standing in
+a string column of the synthetic table is a mask, the code of a single-point range released for that column by a releasable node of a
+forest tree, or a string with a safe code — whatever the column types and values, the entity-id layout, the salt, the parameters, the
+plan and every RNG stream. -/
+theorem C01_synthesize_plan_strings (E : Env α) (cols : List (RawCol α)) (nrows : Nat) (names : List String)
+    (pids : Array (List UInt64)) (ap : AnonParams α) (bp : BucketParams) (kind : CounterKind)
+    (hn : 0 < nrows) (hlt : 0 ≤ ap.supp.lt)
+    (isIntegral : List Bool) (entropy : List α) (threshRel : α) (cl : Clusters)
+    (hini : 1 ≤ cl.initial.length) (hder : ∀ dc ∈ cl.derivedClusters, 1 ≤ dc.derived.length)
+    (streams : List (List Nat × List (Draw α))) (s s' : List (Draw α)) (res : MTable (Cell α) α)
+    (h : (synthesizePlan E cols nrows names pids ap bp kind isIntegral entropy threshRel cl streams).run s = .ok (res, s')) :
+    ∃ (F : Forest α), forestOfTable E cols nrows names pids ap bp kind = .ok ((fitTable E cols nrows).1, F) ∧
+      ∀ row ∈ res.1, row.length = res.2.length ∧
+        ∀ (k : Nat) (hk : k < res.2.length), StringBacked E F (fitTable E cols nrows).1 res.2[k] (row.getD k default) := by
+  unfold synthesizePlan at h
+  split at h
+  · simp [throw, throwThe, MonadExceptOf.throw, StateT.lift, StateT.run] at h
+  · rename_i convs F hF
+    have hF' := hF
+    unfold forestOfTable at hF
+    split at hF
+    · rename_i F' hinit
+      simp only [Except.ok.injEq, Prod.mk.injEq] at hF
+      obtain ⟨rfl, rfl⟩ := hF
+      refine ⟨F', hF', ?_⟩
+      have hsz : (fitTable E cols nrows).2.size = nrows := by simp [fitTable]
+      have hap : F'.ctx.ap = ap := by
+        unfold Forest.init at hinit
+        simp only [bind, Except.bind] at hinit
+        split at hinit
+        · cases hinit
+        · split at hinit
+          · cases hinit
+          · simp only [pure, Except.pure, Except.ok.injEq] at hinit
+            subst hinit
+            rfl
+      exact C01_table_strings E _ F' hinit (by simp only [hsz]; exact hn) (by rw [hap]; exact hlt) (fitTable E cols nrows).1
+        isIntegral entropy threshRel cl hini hder streams s s' res h
+    · cases hF
 
 end
